@@ -215,6 +215,9 @@ def gen_stream(ctx, quick, info):
                     ctx.notes.append(f"corpus entry names an unknown hostile builder: {e['hostile']}")
                     continue
                 b = host[e["hostile"]][0]
+            elif "fixture" in e:
+                import lenient_common as _lc
+                b = _lc.apply_edits((core.REPO / "tests" / "psd_files" / e["fixture"]).read_bytes(), e["edits"])
             else:
                 b = unhx(e["file"])
             yield case(b, "corpus", e.get("note", "")[:80], hostile=e.get("hostile"), force_export=True, force_model=True)
